@@ -59,13 +59,13 @@ void vp_thr_visit(arena* a, thread_data* td, int tid, int worker, int nvisit) {
 // ---- sequential set-up / inspection
 // White-box arena: the real arena::allocate_arena + constructor (task streams with std::deque lanes, one task_dispatcher and
 // a task_group_context per slot) is too heavy for the thread-mode encoding, and none of it is touched by slot acquisition.
-// Storage has the real layout (allocation_size: mailboxes below the arena, slots after arena_base), is zeroed like
-// allocate_arena does, and gets exactly the scalar fields the constructor stores; mailboxes are constructed for real.
-arena* vp_arena_make(threading_control* tc, unsigned num_slots, unsigned reserved) {
+// Storage has the real layout (mailboxes below the arena, slots after arena_base), is zeroed like allocate_arena does,
+// and gets exactly the scalar fields the constructor stores; mailboxes are constructed for real.
+arena* vp_arena_make(unsigned char* storage, threading_control* tc, unsigned num_slots, unsigned reserved) {
+  // storage: zero-initialised, laid out [n_slots mail_outbox][arena (base + slot 0)][n_slots-1 arena_slot], provided by the
+  // harness as ONE typed object (cbmc then tracks it per field instead of per byte). The task_dispatcher area that
+  // allocation_size() appends is not part of it: no encoded function touches a dispatcher.
   unsigned n_slots = arena::num_arena_slots(num_slots, reserved);
-  std::size_t n = arena::allocation_size(n_slots);
-  unsigned char* storage = (unsigned char*)cache_aligned_allocate(n);
-  std::memset(storage, 0, n);
   arena* a = reinterpret_cast<arena*>(storage + n_slots * sizeof(mail_outbox));
   a->my_threading_control = tc;
   a->my_limit = 1;
@@ -82,8 +82,12 @@ arena* vp_arena_make(threading_control* tc, unsigned num_slots, unsigned reserve
   }
   return a;
 }
-thread_data* vp_td_make(unsigned short index, int worker, unsigned seed_x, unsigned seed_c) {
-  thread_data* td = new (cache_aligned_allocate(sizeof(thread_data))) thread_data{index, worker != 0};
+unsigned long vp_sizeof_arena() { return sizeof(arena); }
+unsigned long vp_sizeof_slot() { return sizeof(arena_slot); }
+unsigned long vp_sizeof_outbox() { return sizeof(mail_outbox); }
+unsigned long vp_sizeof_td() { return sizeof(thread_data); }
+thread_data* vp_td_make(void* storage, unsigned short index, int worker, unsigned seed_x, unsigned seed_c) {
+  thread_data* td = new (storage) thread_data{index, worker != 0};      // real constructor on typed harness storage
   td->my_random.x = seed_x; td->my_random.c = seed_c | 1;      // any generator state (c is kept odd by FastRandom::init)
   return td;
 }
